@@ -30,7 +30,11 @@ func (u *UseCase) UpdateTx(ctx context.Context, oldTxId, newTxId string, filter 
 		u.txStore.Put(newTxId, newTx)
 	}
 
-	newTx.RLock()
+	// The conflict check and the publication form one critical section: with the check under
+	// a read lock and the publication under a later write lock two snapshot transactions
+	// writing the same key could both pass the check and both commit.
+	newTx.Lock()
+	u.allStore.Lock()
 	var (
 		files     = make([]model.File, 0, tx.Len())
 		freeNodes = make([]*core.Node[model.File], 0, tx.Len())
@@ -40,6 +44,8 @@ func (u *UseCase) UpdateTx(ctx context.Context, oldTxId, newTxId string, filter 
 			link := n.DeleteLink()
 			u.nodePool.Release(link, n)
 		}
+		u.allStore.Unlock()
+		newTx.Unlock()
 		deleteFiles = append(deleteFiles, files...)
 	}()
 
@@ -56,7 +62,6 @@ func (u *UseCase) UpdateTx(ctx context.Context, oldTxId, newTxId string, filter 
 
 		file := n.V()
 		file.TxId = newTxId
-		file.Seq = sequence.Next()
 		files = append(files, file)
 		freeNodes = append(freeNodes, n)
 
@@ -65,7 +70,6 @@ func (u *UseCase) UpdateTx(ctx context.Context, oldTxId, newTxId string, filter 
 			freeNodes = append(freeNodes, n)
 		}
 	}
-	newTx.RUnlock()
 	verifhook.Point("utx.betweenAB")
 	if err != nil {
 		return
@@ -75,17 +79,13 @@ func (u *UseCase) UpdateTx(ctx context.Context, oldTxId, newTxId string, filter 
 		return
 	}
 
-	newTx.Lock()
-	u.allStore.Lock()
-	defer func() {
-		u.allStore.Unlock()
-		newTx.Unlock()
-	}()
-
+	// One sequence number for the whole commit, drawn under the write lock: a snapshot that
+	// begins while the commit is in progress sees either all of its versions or none.
+	verifhook.Point("utx.seqB")
+	seq := sequence.Next()
 	err = u.fileRepo.RunTransaction(ctx, func(ctx context.Context) error {
 		for i := range files {
-			verifhook.Point("utx.seqB")
-			files[i].Seq = sequence.Next()
+			files[i].Seq = seq
 			err = u.fileRepo.Set(ctx, files[i])
 			if err != nil {
 				return fmt.Errorf("store to tx: %w", err)
